@@ -293,8 +293,16 @@ Section StepMono.
     s_res_hidden (st_store st) = [] -> exists_result m (st_store st) = true -> exists_result m (step_store fr sg st) = true.
   Proof.
     intros Hh H. unfold step_store. destruct fr; try exact H; destruct sg; try exact H.
-    - destruct (exists_processed n (st_store st)); exact H.
     - rewrite (result_set _ _ _ _ Hh), H. apply orb_true_r.
+    - destruct (exists_processed n (st_store st)); exact H.
+  Qed.
+
+  Definition frame_key (fr : frame) : option key :=
+    match fr with FNodeAfterExec _ n | FNodeAfterSave _ n _ | FExecStart _ n _ | FNodeStart _ n _ => Some n | _ => None end.
+  Lemma owner_frame_key nm fr n : owner nm fr = true -> frame_key fr = Some n -> nm = TNNode n.
+  Proof.
+    destruct fr; cbn [frame_key]; intros Ho H; try discriminate H; inversion H; subst;
+      destruct nm; try discriminate Ho; cbn in Ho; apply key_eqb_spec in Ho; subst; reflexivity.
   Qed.
 
   (* what a frame of another coroutine family does not touch *)
@@ -305,20 +313,290 @@ Section StepMono.
     (forall n, step_event fr sg = Some n -> key_eqb m n = false).
   Proof.
     intros Ho Hne Hh.
-    assert (K : forall n, node_frame_key nm n = true -> key_eqb m n = false).
+    assert (K : forall n, frame_key fr = Some n -> key_eqb m n = false).
     { intros n Hn. destruct (key_eqb m n) eqn:E; [|reflexivity]. apply key_eqb_spec in E. subst n. exfalso. apply Hne.
-      unfold node_frame_key in Hn. destruct nm; try discriminate Hn. apply key_eqb_spec in Hn. subst. reflexivity. }
-    unfold step_store, step_event.
-    destruct fr; try (repeat split; try reflexivity; intros n0 Hn0; discriminate Hn0); destruct sg;
-      try (repeat split; try reflexivity; intros n0 Hn0; discriminate Hn0).
-    - (* FNodeAfterExec SVal *) repeat split; [| |intros n0 Hn0; discriminate Hn0].
-      + apply processed_set_result.
-      + rewrite (result_set _ _ _ _ Hh). rewrite (K n); [reflexivity|]. destruct nm; try discriminate Ho. exact Ho.
-    - repeat split; try reflexivity. intros n0 Hn0. inversion Hn0; subst. apply K. destruct nm; try discriminate Ho. exact Ho.
-    - repeat split; try reflexivity. intros n0 Hn0. inversion Hn0; subst. apply K. destruct nm; try discriminate Ho. exact Ho.
-    - destruct unlock; repeat split; try reflexivity; intros n0 Hn0; try discriminate Hn0. inversion Hn0; subst. apply K. destruct nm; try discriminate Ho. exact Ho.
-    - destruct unlock; repeat split; try reflexivity; intros n0 Hn0; try discriminate Hn0. inversion Hn0; subst. apply K. destruct nm; try discriminate Ho. exact Ho.
-    - (* FExecStart SGo *) destruct (exists_processed n (st_store st)) eqn:E; repeat split; try reflexivity; try (intros n0 Hn0; discriminate Hn0).
-      rewrite processed_set. rewrite (K n); [reflexivity|]. destruct nm; try discriminate Ho. exact Ho.
+      exact (owner_frame_key _ _ _ Ho Hn). }
+    destruct fr; destruct sg; cbn [step_store step_event];
+      try match goal with |- context [if ?u then _ else _] => destruct u eqn:? end;
+      repeat split; try reflexivity;
+      try (intros n0 Hn0; first [discriminate Hn0 | inversion Hn0; subst; apply K; reflexivity]);
+      try (rewrite processed_set, (K _ eq_refl); reflexivity);
+      try (rewrite (result_set _ _ _ _ Hh), (K _ eq_refl); reflexivity).
   Qed.
 End StepMono.
+
+(* ---- the invariant ---------------------------------------------------------------------------------------------------------- *)
+Definition PhiN (st : mstate) (m : key) (ts : tstate frame) : Prop :=
+  (exists_processed m (st_store st) = true -> head_ok (estack ts) = true) /\
+  forallb (fun f => negb (is_start_frame f)) (tl (estack ts)) = true /\
+  existsb is_dup_frame (estack ts) = false /\
+  sig_of ts <> Some SElsewhere /\
+  (existsb is_after_save (estack ts) = true -> exists_result m (st_store st) = true) /\
+  last_knode (estack ts) = true /\
+  ((exists r, ts = TDone r) <-> event_is_set m st = true) /\
+  (event_is_set m st = true -> exists_result m (st_store st) = true \/ exists e, ts = TDone (SThrow e)) /\
+  (forall d n f r s, ts = TReady (FNodeStart d n f :: r) s -> s = SGo).
+
+Definition PhiE (st : mstate) (i : idt) (ts : tstate frame) : Prop :=
+  (fst (fst i) = main_tid -> snd (fst i) = TNMain) /\ (forall m, snd (fst i) = TNNode m -> PhiN st m ts).
+
+Lemma PhiN_ext st st' m ts : st_store st' = st_store st -> st_events st' = st_events st -> PhiN st m ts -> PhiN st' m ts.
+Proof. unfold PhiN, event_is_set. intros -> ->. auto. Qed.
+Lemma PhiE_ext st st' i ts : st_store st' = st_store st -> st_events st' = st_events st -> PhiE st i ts -> PhiE st' i ts.
+Proof. intros A B [H1 H2]. split; [exact H1|]. intros m Hm. apply (PhiN_ext st); auto. Qed.
+
+Lemma PhiE_wake st : wake_closed (PhiE st).
+Proof.
+  intros i w k [H0 H]. split; [exact H0|]. intros m Hm. destruct (H m Hm) as (A & B & C & D & E & F & G0 & H1 & I0).
+  unfold PhiN. cbn [estack sig_of] in *. repeat split; auto.
+  - discriminate.
+  - intros [r Hr]. discriminate Hr.
+  - intros He. apply G0 in He. destruct He as [r Hr]. discriminate Hr.
+  - intros He. destruct (H1 He) as [Hr|[e He']]; [left; exact Hr|discriminate He'].
+  - intros d n f r s Hs. inversion Hs. reflexivity.
+Qed.
+
+Lemma last_cons_default {A} (f : A) k d : last (f :: k) d = last k f.
+Proof. revert f d. induction k as [|g k IH]; intros f d; [reflexivity|]. change (last (f :: g :: k) d) with (last (g :: k) d). rewrite (IH g d), (IH g f). reflexivity. Qed.
+Lemma is_knode_cls f : is_knode f = true <-> cls_of f = KNode.
+Proof. destruct f; cbn; split; intros H; try reflexivity; discriminate H. Qed.
+
+Lemma step_event_key fr sg n : step_event fr sg = Some n -> frame_key fr = Some n.
+Proof. destruct fr; destruct sg; cbn; try discriminate; try (destruct unlock; try discriminate); intros H; inversion H; reflexivity. Qed.
+
+Section ExecInv.
+  Variable P : prog.
+  Notation G := (b_graph (build (p_decls P) (p_inp P) (p_out P))).
+  Hypothesis Hsw : forall n, is_switch G n = false.
+  Hypothesis Hhd : forall n, is_head G n = false.
+  Hypothesis Hbody : forall i kw a v, p_body P i kw a = OVal v -> clean v = true.
+  Notation order := (p_order P (maind P)).
+  Hypothesis Hnd : NoDup order.
+
+  Lemma event_add m n (st : mstate) : mem key_eqb m (add_set key_eqb n (st_events st)) = key_eqb m n || event_is_set m st.
+  Proof. apply mem_add_set_eq. Qed.
+
+  Lemma PhiN_running st t fr rest sg m x0 :
+    base P st (Some (t, fr :: rest, sg)) -> handled fr sg = true ->
+    find_task t (st_tasks st) = Some x0 -> t_name x0 = TNNode m ->
+    PhiN st m (TReady (fr :: rest) sg) ->
+    PhiN (fst (step_frame P t fr sg st)) m (nstate rest (snd (step_frame P t fr sg st))).
+  Proof.
+    intros Hb Hh Hf0 Hnm (O1 & O1' & O2 & O2' & O3 & O9 & O4 & O7 & O10).
+    destruct (b_cur _ _ _ Hb) as [x0' [Hf0' [Hk [Hs [Ho [Hc _]]]]]]. rewrite Hf0 in Hf0'. inversion Hf0'; subst x0'. clear Hf0'.
+    rewrite Hnm in Ho. cbn [plain_stack forallb] in Hk, Ho. apply andb_true_iff in Hk. destruct Hk as [Kf Kr]. apply andb_true_iff in Ho. destruct Ho as [Of Or].
+    pose proof (b_ps _ _ _ Hb) as Hps. pose proof Hps as Hps'. unfold PS in Hps'. destruct Hps' as [_ [Hrh _]].
+    destruct (plain_step_summary P t fr sg st Kf Hs Hps) as (Hst & Hev & _).
+    destruct (plain_step_starts P t fr sg st Kf Hs Hps) as [St1 St2].
+    pose proof (plain_step_dup P t fr sg st Kf Hs Hps) as Hdup.
+    pose proof (plain_step_after_save P t fr sg st Kf Hs Hps) as Has.
+    pose proof (step_frame_dir_ok P t fr sg st) as Hdo.
+    pose proof (plain_step_knode_ret P t fr sg st) as Hkr.
+    pose proof (plain_step_event_ret P t fr sg st) as Her.
+    cbn [estack tl sig_of] in O1, O1', O2, O2', O3, O9.
+    cbn [existsb] in O2, O3. apply orb_false_iff in O2. destruct O2 as [O2a O2b].
+    assert (Hnev : event_is_set m st = false).
+    { destruct (event_is_set m st) eqn:E; [|reflexivity]. destruct (proj2 O4 eq_refl) as [r Hr]. discriminate Hr. }
+    assert (Hkey : forall n, frame_key fr = Some n -> n = m).
+    { intros n Hn. pose proof (owner_frame_key _ _ _ Of Hn) as E. inversion E. reflexivity. }
+    (* when the node's event is set by this step *)
+    assert (Hset : event_is_set m (fst (step_frame P t fr sg st)) = true ->
+                   exists s', snd (step_frame P t fr sg st) = DRet s' /\ rest = [] /\ step_event fr sg = Some m /\ is_knode fr = true).
+    { unfold event_is_set. rewrite Hev. destruct (step_event fr sg) as [n|] eqn:Ese; [|fold (event_is_set m st); rewrite Hnev; discriminate].
+      rewrite event_add, Hnev, orb_false_r. intros E. apply key_eqb_spec in E. subst n.
+      destruct (Her m Kf Hs Hps eq_refl) as [s' Hd]. exists s'.
+      assert (Hkn : is_knode fr = true) by (destruct fr; try discriminate Ese; reflexivity).
+      repeat split; try assumption. exact (knode_bottom m fr rest Hkn Or Hc). }
+    set (d := snd (step_frame P t fr sg st)) in *.
+    unfold PhiN. rewrite estack_nstate.
+    repeat split.
+    - (* E1 *)
+      intros Hp. destruct (dir_frames d) as [|f k''] eqn:Ed.
+      + cbn [app]. apply nostart_head. exact O1'.
+      + cbn [app head_ok]. destruct (is_start_frame f) eqn:Ef; [|reflexivity]. exfalso.
+        destruct St2 as [d0 [n [f0 Efr]]]; [cbn [head_ok]; rewrite Ef; reflexivity|]. subst fr.
+        rewrite Hst in Hp. cbn [step_store] in Hp. specialize (O1 Hp). cbn in O1. discriminate O1.
+    - (* E1' *)
+      destruct (dir_frames d) as [|f k''] eqn:Ed.
+      + cbn [app]. destruct rest as [|g r]; [reflexivity|]. cbn [tl]. cbn [forallb] in O1'. apply andb_true_iff in O1'. apply O1'.
+      + cbn [app tl]. cbn [tl] in St1. rewrite forallb_app, St1, O1'. reflexivity.
+    - (* E2: no duplicate-request frame *)
+      rewrite existsb_app, O2b, orb_false_r. destruct (existsb is_dup_frame (dir_frames d)) eqn:E; [|reflexivity]. exfalso.
+      destruct (Hdup (or_introl eq_refl)) as [[d0 [n [f [-> [-> Hp]]]]]|[n ->]]; [|discriminate O2a].
+      rewrite (Hkey n eq_refl) in Hp. specialize (O1 Hp). discriminate O1.
+    - (* E2': never "executed elsewhere" *)
+      intros Hse. destruct (sig_of_nstate _ _ _ Hse) as [Hd|Hd]; [|discriminate Hd].
+      destruct (Hdup (or_intror Hd)) as [[d0 [n [f [-> [-> Hp]]]]]|[n ->]]; [|discriminate O2a].
+      rewrite (Hkey n eq_refl) in Hp. specialize (O1 Hp). discriminate O1.
+    - (* E3 *)
+      rewrite existsb_app. intros H. rewrite Hst. apply orb_true_iff in H. destruct H as [H|H].
+      + destruct (Has H) as [d0 [n [res [-> ->]]]]. cbn [step_store]. rewrite (result_set _ _ _ _ Hrh), (Hkey n eq_refl), key_eqb_refl. reflexivity.
+      + apply step_store_res_mono; [exact Hrh|]. apply O3. rewrite H. apply orb_true_r.
+    - (* E9 *)
+      assert (Hcase : forall k', seg_ok fr k' -> last_knode (k' ++ rest) = true).
+      { intros k' [Hne [_ [Hl _]]]. destruct k' as [|f k'']; [contradiction|]. cbn [app last_knode].
+        destruct rest as [|g r].
+        - rewrite app_nil_r. rewrite last_cons_default in Hl. cbn [last_knode last] in O9.
+          apply is_knode_cls. rewrite Hl. apply is_knode_cls. exact O9.
+        - rewrite (last_app_ne k'' (g :: r) f); [|discriminate]. cbn [last_knode] in O9. rewrite last_cons_default in O9. rewrite last_cons_default. exact O9. }
+      destruct d as [w k'|k'|k' sg'|sg']; cbn [dir_frames dir_ok] in *; try (apply Hcase; exact Hdo).
+      cbn [app]. destruct rest as [|g r]; [reflexivity|]. cbn [last_knode] in *. rewrite last_cons_default in O9. exact O9.
+    - (* E4 -> *)
+      intros [r Hr]. destruct (nstate_done _ _ _ _ Hdo Hr) as [Hd ->]. cbn [last_knode last] in O9.
+      destruct (Hkr r Kf Hs Hps O9 Hh Hd) as [n [Hse _]].
+      + intros ->. apply O2'. reflexivity.
+      + intros d0 n f ->. eapply O10. reflexivity.
+      + unfold event_is_set. rewrite Hev, Hse, event_add.
+        assert (n = m) by (apply Hkey; apply (step_event_key _ _ _ Hse)). subst n. rewrite key_eqb_refl. reflexivity.
+    - (* E8 <- *)
+      intros He. destruct (Hset He) as [s' [Hd [-> _]]]. exists s'. rewrite Hd. reflexivity.
+    - (* E7 *)
+      intros He. destruct (Hset He) as [s' [Hd [-> [Hse Hkn]]]].
+      destruct (Hkr s' Kf Hs Hps Hkn Hh Hd) as [n [_ [[e ->]|Has']]].
+      + intros ->. apply O2'. reflexivity.
+      + intros d0 n f ->. eapply O10. reflexivity.
+      + right. exists e. rewrite Hd. reflexivity.
+      + left. rewrite Hst. apply step_store_res_mono; [exact Hrh|]. apply O3. rewrite Has'. reflexivity.
+    - (* E10 *)
+      intros d0 n f r s Hn.
+      assert (Hstk : dir_frames d ++ rest = FNodeStart d0 n f :: r) by (rewrite <- estack_nstate, Hn; reflexivity).
+      destruct (dir_frames d) as [|f' k''] eqn:Ed.
+      + cbn [app] in Hstk. subst rest. cbn [forallb is_start_frame negb] in O1'. discriminate O1'.
+      + cbn [app] in Hstk. inversion Hstk; subst f'. exfalso.
+        destruct St2 as [d1 [n1 [f1 Efr]]]; [reflexivity|]. subst fr. pose proof (O10 _ _ _ _ _ eq_refl) as Esg. subst sg. unfold d in Ed. cbn [step_frame snd dir_frames] in Ed. discriminate Ed.
+  Qed.
+
+  Definition globE (st : mstate) : Prop := forall m, event_is_set m st = true -> In m (node_names st).
+  Definition execI (st : mstate) (c : running) : Prop := guard st \/ (globE st /\ allT (PhiE st) st c).
+
+  Lemma roles_nodup st c : globR st -> allT (PhiR P st) st c -> NoDup (node_names st).
+  Proof.
+    intros (_ & _ & G3) HA.
+    assert (Hdec : In TNRun (names st) \/ ~ In TNRun (names st)).
+    { destruct (existsb is_run_name (names st)) eqn:E.
+      - left. apply existsb_exists in E. destruct E as [nm [Hin Hn]]. destruct nm; try discriminate Hn. exact Hin.
+      - right. intros Hin. assert (existsb is_run_name (names st) = true) by (apply existsb_exists; exists TNRun; auto). congruence. }
+    destruct Hdec as [Hin|Hno]; [|rewrite (G3 Hno); constructor].
+    unfold names in Hin. apply in_map_iff in Hin. destruct Hin as [x [Hnm Hx]].
+    destruct (allT_In _ _ _ x HA Hx) as (_ & _ & _ & D & _). cbn [ident fst snd] in D. destruct (D Hnm) as [r [_ Ho]].
+    apply (NoDup_app_l _ r). rewrite <- Ho. exact Hnd.
+  Qed.
+
+  Lemma PhiN_same st st' m ts :
+    exists_processed m (st_store st') = exists_processed m (st_store st) ->
+    exists_result m (st_store st') = exists_result m (st_store st) ->
+    event_is_set m st' = event_is_set m st -> PhiN st m ts -> PhiN st' m ts.
+  Proof. unfold PhiN. intros -> -> ->. auto. Qed.
+
+  Lemma events_after_step t rest r : st_events (fst (after_step t rest r)) = st_events (fst r).
+  Proof. destruct r as [st1 [w k'|k'|k' sg'|sg']]; reflexivity. Qed.
+
+  Lemma allT_extE st0 st1 st c : st_store st1 = st_store st0 -> st_events st1 = st_events st0 -> allT (PhiE st0) st c -> allT (PhiE st1) st c.
+  Proof. intros A B. apply allT_impl. intros x _. apply PhiE_ext; assumption. Qed.
+  Lemma globE_ext st st' : names st' = names st -> st_events st' = st_events st -> globE st -> globE st'.
+  Proof. unfold globE, node_names, event_is_set. intros -> ->. auto. Qed.
+
+  Lemma execA_step st t fr rest sg :
+    base P st (Some (t, fr :: rest, sg)) -> handled fr sg = true ->
+    globR st -> allT (PhiR P st) st (Some (t, fr :: rest, sg)) ->
+    NoDup (node_names (fst (step_frame P t fr sg st))) ->
+    globE st -> allT (PhiE st) st (Some (t, fr :: rest, sg)) ->
+    leaves_run fr sg (snd (step_frame P t fr sg st)) = false ->
+    globE (fst (step_frame P t fr sg st)) /\
+    allT (PhiE (fst (step_frame P t fr sg st)))
+         (fst (after_step t rest (step_frame P t fr sg st))) (snd (after_step t rest (step_frame P t fr sg st))).
+  Proof.
+    intros Hb Hh HG HA Hnd1 GE HE Hlr. destruct HG as (G1 & G2 & G3).
+    destruct (b_cur _ _ _ Hb) as [x0 [Hf0 [Hk [Hs [Ho [Hc _]]]]]].
+    cbn [plain_stack forallb] in Hk, Ho. apply andb_true_iff in Hk. destruct Hk as [Kf Kr]. apply andb_true_iff in Ho. destruct Ho as [Of Or].
+    pose proof (b_ps _ _ _ Hb) as Hps. pose proof Hps as Hps'. unfold PS in Hps'. destruct Hps' as [_ [Hrh _]].
+    pose proof (plain_step_names P Hsw Hhd t fr sg st Kf Hs Hps) as Hn.
+    destruct (plain_step_summary P t fr sg st Kf Hs Hps) as (Hst & Hev & _).
+    destruct (find_task_in _ _ _ Hf0) as [Hin0 Hid0].
+    pose proof (allT_In _ _ _ x0 HA Hin0) as Hx0. unfold PhiR in Hx0. cbn [estate] in Hx0. rewrite Hid0, Nat.eqb_refl in Hx0.
+    destruct Hx0 as (X1 & X2 & X3 & X4 & X5). cbn [ident fst snd] in X1, X2, X3, X4, X5.
+    pose proof (allT_In _ _ _ x0 HE Hin0) as Hy0. unfold PhiE in Hy0. cbn [estate] in Hy0. rewrite Hid0, Nat.eqb_refl in Hy0.
+    destruct Hy0 as [Y0 Y1]. cbn [ident fst snd] in Y0, Y1.
+    pose proof (in_names _ _ Hin0) as Hnm0. pose proof (base_next _ _ _ Hb) as Hnx.
+    split.
+    - (* events only of nodes that have a task *)
+      intros m Hm. unfold node_names. rewrite Hn, flat_map_app. apply in_or_app. left. fold (node_names st).
+      unfold event_is_set in Hm. rewrite Hev in Hm. destruct (step_event fr sg) as [n|] eqn:Ese; [|apply GE; exact Hm].
+      rewrite event_add in Hm. apply orb_true_iff in Hm. destruct Hm as [Hm|Hm]; [|apply GE; exact Hm].
+      apply key_eqb_spec in Hm. subst n. apply node_names_in. rewrite <- (owner_frame_key _ _ _ Of (step_event_key _ _ _ Ese)). exact Hnm0.
+    - apply (allT_step P Hsw Hhd (PhiE st)); try assumption.
+      + apply PhiE_wake.
+      + (* spawned tasks *)
+        intros nm Hnm. unfold PhiE. cbn [fst snd].
+        split; [unfold main_tid; intros; lia|]. intros m Em.
+        destruct (creates_shape P fr sg st nm Hnm) as [[-> ->]|[d [n [r [l0 [-> [-> ->]]]]]]]; [discriminate Em|]. inversion Em; subst m. clear Em.
+        assert (Hnot : ~ In n (node_names st)).
+        { destruct (X4 (owner_dag_loop _ _ _ _ Of)) as [r0 [Hr0 Hor]].
+          assert (r0 = n :: r) by (destruct rest; [cbn in Hr0; inversion Hr0; reflexivity|discriminate Hr0]). subst r0.
+          intros Hin. pose proof Hnd as Hnd'. rewrite Hor in Hnd'. apply NoDup_remove_2 in Hnd'. apply Hnd'. apply in_or_app. left. exact Hin. }
+        unfold PhiN, spawn_frame_of. cbn [estack tl forallb existsb is_dup_frame is_after_save sig_of last_knode last is_knode head_ok is_start_frame negb].
+        repeat split; try reflexivity; try discriminate.
+        * intros Hp. exfalso. apply Hnot. apply G1. exact Hp.
+        * intros [r1 Hr1]. discriminate Hr1.
+        * intros He. exfalso. apply Hnot. apply GE. exact He.
+        * intros He. exfalso. apply Hnot. apply GE. exact He.
+        * intros d1 n1 f1 r1 s1 Hs1. inversion Hs1. reflexivity.
+      + (* the other tasks *)
+        intros y ts Hy Hne [A B]. split; [exact A|]. intros m Em. specialize (B m Em).
+        destruct (tname_seqb (t_name x0) (TNNode m)) eqn:Et.
+        * (* a second task for the node this step belongs to: impossible *)
+          exfalso. apply tname_seqb_sound in Et.
+          pose proof (ev_step_frame P t fr sg st) as Hev'.
+          destruct (evolves_find _ _ _ _ Hev' Hf0) as [x' [Hf' [Hnm' [_ Hid']]]]. destruct (find_task_in _ _ _ Hf') as [Hin' _].
+          apply (node_names_unique _ y x' m Hnd1 Hy Hin'); [rewrite Hid', Hid0; exact Hne|exact Em|rewrite Hnm'; exact Et].
+        * assert (Hnn : t_name x0 <> TNNode m) by (intros E; rewrite E in Et; clear -Et; destruct m; cbn in Et; rewrite ?Nat.eqb_refl in Et; discriminate Et).
+          destruct (step_untouched (t_name x0) fr sg st m Of Hnn Hrh) as (U1 & U2 & U3).
+          apply (PhiN_same st); [rewrite Hst; exact U1|rewrite Hst; exact U2| |exact B].
+          unfold event_is_set. rewrite Hev. destruct (step_event fr sg) as [n|] eqn:Ese; [|reflexivity].
+          rewrite event_add, (U3 n eq_refl). reflexivity.
+      + (* the running task *)
+        intros x Hx Hid. rewrite (run_ident P st t fr sg x0 x (b_ev _ _ _ Hb) Hf0 Hx Hid). unfold PhiE. cbn [ident fst snd].
+        split; [exact Y0|]. intros m Em. apply (PhiN_running st t fr rest sg m x0); try assumption. apply Y1. exact Em.
+  Qed.
+
+  Lemma names_after_step' t rest r : names (fst (after_step t rest r)) = names (fst r).
+  Proof. apply names_after_step. Qed.
+
+  Theorem creach_exec : forall st c, creach P st c -> execI st c.
+  Proof.
+    intros st c H. pose proof (creach_base P Hsw Hhd Hbody st c H) as Hb0.
+    induction H as [|st t rest x k sg H IH Hq Hf Ht|st t rest H IH Hq|st t fr rest sg H IH|st t sg H IH|st c H IH|st g H IH|st H IH].
+    - right. split; [intros m Hm; discriminate Hm|].
+      unfold allT, tasks_ok, init_state. cbn. constructor; [|constructor]. unfold TPc, PhiE. cbn. split; [reflexivity|]. intros m Hm. discriminate Hm.
+    - pose proof (creach_base P Hsw Hhd Hbody _ _ H) as Hb. destruct (IH Hb) as [Hg|[GE HE]]; [left; exact Hg|right].
+      split; [exact GE|]. apply (allT_extE st); [reflexivity|reflexivity|]. eapply (allT_start P); eassumption.
+    - pose proof (creach_base P Hsw Hhd Hbody _ _ H) as Hb. destruct (IH Hb) as [Hg|[GE HE]]; [left; exact Hg|right]. split; [exact GE|exact HE].
+    - pose proof (creach_base P Hsw Hhd Hbody _ _ H) as Hb.
+      pose proof (cr_step P st t fr rest sg H) as Hcr'.
+      destruct (creach_roles P Hsw Hhd Hbody Hnd _ _ Hcr') as [Hg'|[HG' HA']]; [left; exact Hg'|].
+      destruct (creach_roles P Hsw Hhd Hbody Hnd _ _ H) as [Hg|[HG HA]]; [left; apply (guard_step P); assumption|].
+      destruct (IH Hb) as [Hg|[GE HE]]; [left; apply (guard_step P); assumption|].
+      destruct (b_cur _ _ _ Hb) as [x0 [Hf0 [Hk [Hs _]]]]. cbn [plain_stack forallb] in Hk. apply andb_true_iff in Hk. destruct Hk as [Kf _].
+      destruct (leaves_run fr sg (snd (step_frame P t fr sg st))) eqn:Hlr.
+      + left. left. rewrite over_after_step, (plain_step_over P t fr sg st Kf Hs (b_ps _ _ _ Hb)), Hlr. apply orb_true_r.
+      + right. destruct (creach_typed P Hsw Hhd Hbody _ _ H) as [_ Hty]. cbn [typed_cur typed_stack] in Hty.
+        pose proof (roles_nodup _ _ HG' HA') as Hnd1. unfold node_names in Hnd1. rewrite names_after_step in Hnd1. fold (node_names (fst (step_frame P t fr sg st))) in Hnd1.
+        destruct (execA_step st t fr rest sg Hb Hty HG HA Hnd1 GE HE Hlr) as [GE1 HE1].
+        split.
+        * apply (globE_ext (fst (step_frame P t fr sg st))); [apply names_after_step|apply events_after_step|exact GE1].
+        * apply (allT_extE (fst (step_frame P t fr sg st))); [apply store_after_step|apply events_after_step|exact HE1].
+    - pose proof (creach_base P Hsw Hhd Hbody _ _ H) as Hb. destruct (IH Hb) as [Hg|[GE HE]]; [left; apply guard_done; [exact (b_ev _ _ _ Hb)|exact Hg]|right].
+      split; [apply (globE_ext st); [exact (sn_set_tstate t _ st)|reflexivity|exact GE]|].
+      apply (allT_extE st); [reflexivity|reflexivity|]. apply (allT_done P); assumption.
+    - pose proof (creach_base P Hsw Hhd Hbody _ _ H) as Hb. left. apply guard_abort. exact (b_ev _ _ _ Hb).
+    - pose proof (creach_base P Hsw Hhd Hbody _ _ H) as Hb. destruct (IH Hb) as [Hg|[GE HE]]; [left; apply (guard_gate P); [exact (b_ev _ _ _ Hb)|exact Hg]|right].
+      unfold complete_gate.
+      split; [apply (globE_ext st); [apply names_wake_all|apply events_wake_all|exact GE]|].
+      apply (allT_extE st); [apply store_wake_all|apply events_wake_all|]. apply allT_gate; [apply PhiE_wake|exact HE].
+    - pose proof (creach_base P Hsw Hhd Hbody _ _ H) as Hb. destruct (IH Hb) as [Hg|[GE HE]]; [left; apply (guard_cancel P); [exact (b_ev _ _ _ Hb)|exact Hg]|right].
+      split; [apply (globE_ext st); [apply names_cancel_task|apply events_cancel_task|exact GE]|].
+      apply (allT_extE st); [apply store_cancel_task|apply events_cancel_task|]. apply allT_cancel_main; [| |exact HE].
+      + intros i k s Hi [A B]. split; [exact A|]. intros m Em. rewrite (A Hi) in Em. discriminate Em.
+      + intros i w k Hi [A B]. split; [exact A|]. intros m Em. rewrite (A Hi) in Em. discriminate Em.
+  Qed.
+End ExecInv.
